@@ -118,6 +118,10 @@ def check_header(case):
     eq(devs, "enc.int_enums.bytes", bytes(hi.pack()), raw)
     eq(devs, "enc.int_enums.roundtrip", obs_header(sp.SpacePacketHeader.unpack(bytes(hi.pack()))), f)
     eq(devs, "pid.int_ptype.raw", sp.PacketId(f["ptype"], bool(f["shf"]), f["apid"]).raw(), p["packet_id"])
+    eq(devs, "pid.int_flag.raw", sp.PacketId(sp.PacketType(f["ptype"]), f["shf"], f["apid"]).raw(), p["packet_id"])  # the flag as the bit read from a header (0 / 1)
+    eq(devs, "enc.int_flag.bytes", bytes(sp.SpacePacketHeader(packet_type=sp.PacketType(f["ptype"]), apid=f["apid"], seq_count=f["count"], data_len=f["dlen"], sec_header_flag=f["shf"],
+                                                           seq_flags=sp.SequenceFlags(f["flags"]), ccsds_version=f["ver"]).pack()), raw)
+    eq(devs, "pid.helper_raw.int_flag", sp.get_sp_packet_id_raw(sp.PacketType(f["ptype"]), f["shf"], f["apid"]), p["packet_id"])
     eq(devs, "psc.int_flags.raw", sp.PacketSeqCtrl(f["flags"], f["count"]).raw(), p["psc"])
     eq(devs, "pid.helper_raw.int_ptype", sp.get_sp_packet_id_raw(f["ptype"], bool(f["shf"]), f["apid"]), p["packet_id"])
     eq(devs, "psc.helper_raw.int_flags", sp.get_sp_psc_raw(f["flags"], f["count"]), p["psc"])
